@@ -376,6 +376,25 @@ theorem history_frame_any_compord [LinearOrder α] [Sub α] [Add α] [Mul α] [D
     c ∈ (run E ops w).conns :=
   run_frame_mem E ops w hp c h ht
 
+/-- COMPDAT **re-entry** under any COMPORD: when the record adds no connection (every cell it
+addresses is inactive or already connected) to a well that is in its COMPORD order and whose
+connections carry their cells' depths, the `order()` that follows is the identity — so
+`compdat_frame`, `compdat_keeps_identities` and `compdat_replaces_in_place` hold position by
+position for TRACK and DEPTH as well. -/
+theorem compdat_reentry_keeps_order_any_compord [LinearOrder α] [Sub α] [Add α] [Mul α] [Div α]
+    (E : Env α) (w : WellConns α) (ho : Ordered E w.conns) (hd : DepthOfGrid E.grid w.conns)
+    (r : CompdatRec α)
+    (hlen : (loadCompdat E.F E.one E.grid E.headI E.headJ r w.conns).length = w.conns.length) :
+    (step E w (.compdat r)).conns = loadCompdat E.F E.one E.grid E.headI E.headJ r w.conns :=
+  step_compdat_reentry E w ho hd r hlen
+
+/-- The depth invariant used above holds along every history that starts from a well without
+connections. -/
+theorem history_depths_are_cell_depths [LinearOrder α] [Sub α] [Add α] [Mul α] [Div α]
+    (E : Env α) (ops : List (Op α)) :
+    DepthOfGrid E.grid (run E ops { conns := [], pending := none }).conns :=
+  run_depthOfGrid E ops _ (fun _ h => by cases h)
+
 /-- Non-vacuity: the three-connection vertical well is in TRACK order and in DEPTH order, the
 COMPDAT-free history does not address connection 1; and on that instance TRACK really
 reorders (a well entered bottom-up is walked top-down from the head). -/
